@@ -6,6 +6,7 @@ import GoomVerif.Model.Mem
 * `c14.write <off> <hexdata> <perms>`           → `res=… calls=… win=<start>:<hex> perms=…`
     a scratch region of `len perms` pages at a page-aligned base; `perms` is a comma list, one letter per page:
     `x`=r-x `w`=rwx `r`=r-- `d`=rw- `u`=unmapped; byte `i` of the region initially holds `pat i`.
+* `c14.writewx <off> <hexdata> <perms>`         → the same with the kernel refusing write+execute (fall-back path)
 * `c14.gen <funcSize> …`                        → `ok len=13` | `err:<class>`               (jumpdata.go size test)
 * `c14.install <entryOff> <funcSize> <orig13> …` → install without placeholder on an r-x image, then unpatch
   (further `key=value` tokens name the real function for the probe and are ignored here)
@@ -38,8 +39,9 @@ def charOfPerm : Option Perm → String
 def parsePerms (s : String) : Option (List (Option Perm)) :=
   (s.splitOn ",").mapM (fun t => match t.toList with | [c] => permOfChar c | _ => none)
 
-def mkState (perms : List (Option Perm)) (content : Nat → Byte) : State :=
-  { mem := fun q => content (q.toNat - base.toNat),
+def mkState (perms : List (Option Perm)) (content : Nat → Byte) (deny : Bool := false) : State :=
+  { denyWX := deny,
+    mem := fun q => content (q.toNat - base.toNat),
     perm := fun p =>
       let d := p.toNat - base.toNat
       if base.toNat ≤ p.toNat ∧ d % 4096 = 0 then (perms.getD (d / 4096) none) else none }
@@ -49,24 +51,41 @@ def relHex (p : Addr) : String :=
 
 def protName (pr : Perm) : String := (if pr.r then "r" else "") ++ (if pr.w then "w" else "") ++ (if pr.x then "x" else "")
 
-def call (pr : Perm) (ok : Bool) (p : Addr) : String :=
-  s!"{relHex p}:{pageSize}:{protName pr}={if ok then "0" else "ENOMEM"}"
+def errName : Err → String
+  | .enomem _ => "ENOMEM"
+  | .eacces _ => "EACCES"
+  | .segv _ => "SEGV"
 
-/-- the `mprotect` calls a `writeTo` with this outcome has issued, in order, with their results -/
-def callsOf (a : Addr) (n : Nat) (o : Outcome) : List String :=
-  let ps := pages a n
-  let upTo (p : Addr) (pr : Perm) := (ps.takeWhile (· != p)).map (call pr true) ++ [call pr false p]
-  match o with
-  | .ok => ps.map (call RWX true) ++ ps.map (call RX true)
-  | .fallback (.enomem p) => upTo p RWX
-  | .fallback _ => ["?"]
-  | .fault _ => ps.map (call RWX true)
-  | .panicRX (.enomem p) => ps.map (call RWX true) ++ upTo p RX
-  | .panicRX _ => ["?"]
+/-- log of one `mprotect` pass: every step is executed with the model's own `Mem.step`; returns the rendered calls, the
+    state reached and whether the pass failed (this is `Mem.run` with a log) -/
+def tracePass : State → List Step → List String → List String × State × Bool
+  | s, [], acc => (acc.reverse, s, false)
+  | s, st :: rest, acc =>
+    match st, step s st with
+    | .mprotect p pr, .ok s' => tracePass s' rest (s!"{relHex p}:{pageSize}:{protName pr}=0" :: acc)
+    | .mprotect p pr, .error e => ((s!"{relHex p}:{pageSize}:{protName pr}={errName e}" :: acc).reverse, s, true)
+    | .store _ _, .ok s' => tracePass s' rest acc
+    | .store _ _, .error _ => (acc.reverse, s, true)
+
+/-- the `mprotect` calls of `WriteTo(a, data)` from state `s`, in order, with results — same control flow as `Mem.writeTo` -/
+def callsOf (a : Addr) (data : List Byte) (s : State) : List String :=
+  let n := data.length
+  let (c1, s1, f1) := tracePass s (protScript a n RWX) []
+  if f1 then
+    let (c2, s2, f2) := tracePass s1 (protScript a n RW) []
+    if f2 then c1 ++ c2 else
+    let (s3, e3) := run s2 (copyScript a data)
+    if e3.isSome then c1 ++ c2 else
+    c1 ++ c2 ++ (tracePass s3 (protScript a n RX) []).1
+  else
+    let (s2, e2) := run s1 (copyScript a data)
+    if e2.isSome then c1 else
+    c1 ++ (tracePass s2 (protScript a n RX) []).1
 
 def outcomeName : Outcome → String
   | .ok => "ok"
-  | .fallback _ => "fallback"
+  | .okFallback _ => "ok-fallback"
+  | .panicFallback _ => "panic-fallback"
   | .fault _ => "fault"
   | .panicRX _ => "panic-rx"
 
@@ -90,14 +109,14 @@ def segments (off n k : Nat) : List (Nat × Nat) :=
     let bs := ((List.range (k + 1)).map (· * 4096)).filter (fun b => off < b ∧ b < off + n)
     [(off - 16, off + 32)] ++ bs.map (fun b => (b - 8, b + 8)) ++ [(off + n - 32, min top (off + n + 16))]
 
-def doWrite (off : Nat) (data : List Byte) (perms : List (Option Perm)) : String :=
+def doWrite (off : Nat) (data : List Byte) (perms : List (Option Perm)) (deny : Bool := false) : String :=
   let k := perms.length
   let a := base + BitVec.ofNat 64 off
-  let s0 := mkState perms pat
+  let s0 := mkState perms pat deny
   let (s1, o) := writeTo a data s0
   let segs := (segments off data.length k).map (fun (lo, hi) => s!"{lo}:{window s1 lo hi}")
   let ps := (List.range k).map (fun i => charOfPerm (s1.perm (base + BitVec.ofNat 64 (i * 4096))))
-  s!"res={outcomeName o} calls={joinOr (callsOf a data.length o)} win={String.intercalate ";" segs} perms={String.intercalate "," ps}"
+  s!"res={outcomeName o} calls={joinOr (callsOf a data s0)} win={String.intercalate ";" segs} perms={String.intercalate "," ps}"
 
 def maskJump (bs : List Byte) : String :=
   match bs with
@@ -112,6 +131,7 @@ def doInstall (entryOff funcSize : Nat) (orig : List Byte) : String :=
   match install origin to funcSize none s0 with
   | (_, .refused why) => s!"refused:{why}"
   | (s1, .done o) =>
+    let jd0 := Gen.Amd64.jmpToFunctionValue origin to
     let entry := (List.range 13).map (fun i => s1.mem (origin + BitVec.ofNat 64 i))
     let saved := savedOriginBytes s0 origin to          -- what the guard holds (patch.go:123)
     let jd := Gen.Amd64.jmpToFunctionValue origin to
@@ -120,7 +140,7 @@ def doInstall (entryOff funcSize : Nat) (orig : List Byte) : String :=
     let pg := base + BitVec.ofNat 64 4096
     let rel := fun (cs : List String) => cs  -- calls are printed relative to `base`; the probe prints them relative to page(entry)-4096
     let _ := pg
-    s!"apply={outcomeName o} entry={maskJump entry} calls={joinOr (rel (callsOf origin 13 o))} unpatch={outcomeName o2} restored={back == orig} calls2={joinOr (callsOf origin saved.length o2)} lens={saved.length}/{jd.length}"
+    s!"apply={outcomeName o} entry={maskJump entry} calls={joinOr (rel (callsOf origin jd0 s0))} unpatch={outcomeName o2} restored={back == orig} calls2={joinOr (callsOf origin saved s1)} lens={saved.length}/{jd.length}"
 
 def handle (toks : List String) : Option String :=
   match toks with
@@ -131,6 +151,10 @@ def handle (toks : List String) : Option String :=
   | ["c14.write", off, hx, perms] =>
     match parseNat off, parseBytes hx, parsePerms perms with
     | some o, some d, some ps => some (doWrite o d ps)
+    | _, _, _ => some "bad-op"
+  | ["c14.writewx", off, hx, perms] =>       -- the same under a W^X kernel policy (RWX requests refused)
+    match parseNat off, parseBytes hx, parsePerms perms with
+    | some o, some d, some ps => some (doWrite o d ps true)
     | _, _, _ => some "bad-op"
   | "c14.survey" :: _ => some "oracle-only"
   | "c14.tramp" :: _ => some "oracle-only"
